@@ -216,19 +216,26 @@ class Program:
         self._load()
         self._link()
         if normalise:
-            from .inline import _logger_names, normalise_accumulators, normalise_conditional_assignments, normalise_generator_arguments, normalise_ifexp, normalise_keys, normalise_suppress, strip_logging
+            from .inline import _logger_names, normalise_unzip_loops, normalise_accumulators, normalise_conditional_assignments, normalise_generator_arguments, normalise_ifexp, normalise_keys, normalise_suppress, strip_logging
             loggers = {m.name: _logger_names(m.tree, m.resolve) for m in self.modules.values()}
             for fi in self.functions.values():
                 if fi.parent is None:
                     strip_logging(fi.node, loggers.get(fi.module.name, set()))
                     normalise_keys(fi.node)
                     normalise_suppress(fi.node, fi.module.resolve)
+                    normalise_unzip_loops(fi.node)
                     normalise_accumulators(fi.node)
                     normalise_conditional_assignments(fi.node)
                     normalise_ifexp(fi.node)
                     normalise_generator_arguments(fi.node)
-            from .inline import Inliner, load_reference
+            from .inline import Inliner, load_reference, normalise_module_constants, normalise_small_quantifiers
             ref = load_reference()
+            if ref is not None:
+                for m in self.modules.values():
+                    normalise_module_constants(m.tree, m.name, [fi.node for fi in self.functions.values() if fi.module is m and fi.parent is None], ref)
+            for fi in self.functions.values():
+                if fi.parent is None:
+                    normalise_small_quantifiers(fi.node)
             if ref is not None:
                 inl = Inliner(self, ref)
                 inl.run()
